@@ -22,6 +22,8 @@ SAFE = LETTERS + DIGITS + SAFE_PUNCT
 # printable ASCII minus the three RTF metacharacters (for text_convert=False)
 ASCII_NOMETA = "".join(chr(c) for c in range(0x20, 0x7F) if chr(c) not in "\\{}")
 
+import re as _re
+_LOOKS_LIKE_TAG = _re.compile(r"d\d+c\d+|G\d+v\d+|g\d+w\d+|SB\d+x\d+|H\d+c\d+|N\d+")
 EXOTIC = [chr(0xE9), chr(0xA0), "e" + chr(0x301), chr(0x3A9), chr(0x4E2D), chr(0x5D0), chr(0x1F600), chr(0xB5) + "g",
           chr(0x2264), chr(0xB1), chr(0x2013), chr(0x201C) + "q" + chr(0x201D), chr(0xDF), chr(0x130)]
 
@@ -70,6 +72,8 @@ def safe_cell_text(rng, convert=True, long_p=0.0):
         # one very long word without a blank
         return text(rng, LETTERS + DIGITS, 30, 90)
     t = text(rng, alpha, 1, 14)
+    if _LOOKS_LIKE_TAG.fullmatch(t.strip()):
+        t += "~"          # free text must never read like one of the sentinel tags (d3c9, G0v1, H1c2 ...)
     if rng.random() < 0.06:
         # non-ASCII: Latin-1, no-break space, combining mark, Greek, CJK, right-to-left, astral
         t += rng.choice(EXOTIC)
